@@ -105,6 +105,33 @@ pub struct How {
     /// `calculate_size()` / `get_padding()` called between the setter calls (as an application
     /// that sizes a packet before deciding on its padding does). Observers must not change the outcome.
     pub probe: bool,
+    /// "re-configuration" route: the builder is first configured with *other* values for everything a later
+    /// setter call can replace (a different, legal, non-zero padding; other scalar fields; another reason /
+    /// payload / prefix), then sized and really written once into a scratch buffer (as an application does that
+    /// keeps one builder around and re-sends with updated fields), and only then given the final values - the
+    /// final padding also when it is 0. A repeated setter keeps the last value, and a packet written earlier
+    /// must leave no trace in the next one.
+    pub reconf: bool,
+}
+
+/// Number of construction routes (`hows(i)` for `i` in `0..ROUTES`).
+pub const ROUTES: usize = 16;
+pub fn hows(i: usize) -> How {
+    How { owned: i & 1 == 1, wrap: i & 2 == 2, probe: i & 4 == 4, reconf: i & 8 == 8 }
+}
+
+/// The junk padding of the re-configuration route: legal, non-zero, different from the final one and (mostly) larger.
+pub fn junk_pad(fin: u8) -> u8 {
+    let j = match (fin / 4) % 3 {
+        0 => 252,
+        1 => 8,
+        _ => 64,
+    };
+    if j == fin {
+        12
+    } else {
+        j
+    }
 }
 
 /// Sized adaptor so that the crate's blanket `RtcpPacketWriterExt::write_into`
@@ -154,6 +181,18 @@ fn probing() -> bool {
 pub fn set_probing(on: bool) {
     PROBE_DEEP.with(|c| c.set(on));
 }
+thread_local! {
+    /// re-configuration route for the sub-builders too (report blocks, RPSI, SDES items): junk values first.
+    static RECONF_DEEP: std::cell::Cell<bool> = const { std::cell::Cell::new(false) };
+}
+fn reconfing() -> bool {
+    RECONF_DEEP.with(|c| c.get())
+}
+pub fn set_reconf(on: bool) {
+    RECONF_DEEP.with(|c| c.set(on));
+}
+static JUNK_BITS: [u8; 7] = [0xe7; 7];
+static JUNK_PFX: [u8; 5] = [0x5c; 5];
 
 pub fn mk_nack(list: &[u16]) -> NackBuilder {
     let mut b = Nack::builder();
@@ -186,6 +225,11 @@ pub fn mk_fir(list: &[(u32, u8)]) -> FirBuilder {
     b
 }
 pub fn mk_rpsi<'a>(pt: u8, bits: &'a [u8], overrun: u8) -> RpsiBuilder<'a> {
+    if reconfing() {
+        let b = Rpsi::builder().payload_type(!pt & 0x7f).native_data(&JUNK_BITS[..], 3);
+        let _ = b.calculate_size();
+        return b.native_data(bits, overrun).payload_type(pt);
+    }
     if probing() {
         // the other order of the two setters, with an observer in between
         let b = Rpsi::builder().native_data(bits, overrun);
@@ -195,6 +239,11 @@ pub fn mk_rpsi<'a>(pt: u8, bits: &'a [u8], overrun: u8) -> RpsiBuilder<'a> {
     Rpsi::builder().payload_type(pt).native_data(bits, overrun)
 }
 pub fn mk_rpsi_owned(pt: u8, bits: &[u8], overrun: u8) -> RpsiBuilder<'static> {
+    if reconfing() {
+        let b = Rpsi::builder().native_data_owned(JUNK_BITS.to_vec(), 3).payload_type(!pt & 0x7f);
+        let _ = b.calculate_size();
+        return b.payload_type(pt).native_data_owned(bits.to_vec(), overrun);
+    }
     if probing() {
         let b = Rpsi::builder().native_data_owned(bits.to_vec(), overrun);
         let _ = b.calculate_size();
@@ -228,6 +277,22 @@ pub fn make_fcis<'a>(cfg: &'a Cfg, out: &mut Vec<FciB<'a>>) {
 }
 
 pub fn mk_rb(b: &Rb) -> ReportBlockBuilder {
+    if reconfing() {
+        // every field first set to another (legal) value
+        return ReportBlock::builder(b.ssrc)
+            .fraction_lost(!b.fraction)
+            .cumulative_lost(!b.cumulative & 0xff_ffff)
+            .extended_sequence_number(!b.ext_seq)
+            .interarrival_jitter(!b.jitter)
+            .last_sender_report_timestamp(!b.lsr)
+            .delay_since_last_sender_report_timestamp(!b.dlsr)
+            .fraction_lost(b.fraction)
+            .cumulative_lost(b.cumulative)
+            .extended_sequence_number(b.ext_seq)
+            .interarrival_jitter(b.jitter)
+            .last_sender_report_timestamp(b.lsr)
+            .delay_since_last_sender_report_timestamp(b.dlsr);
+    }
     ReportBlock::builder(b.ssrc)
         .fraction_lost(b.fraction)
         .cumulative_lost(b.cumulative)
@@ -243,6 +308,10 @@ pub fn mk_item<'a>(i: &'a Item) -> SdesItemBuilder<'a> {
         let _ = b.write_into(&mut []);
     }
     if !i.prefix.is_empty() {
+        if reconfing() {
+            b = b.prefix(&JUNK_PFX[..]);
+            let _ = b.write_into(&mut []);
+        }
         b = b.prefix(&i.prefix[..]);
     }
     b
@@ -337,17 +406,41 @@ pub fn construct<'a, V: Visit<'a>>(
             b
         }};
     }
+    // re-configuration route: size and really write the preliminary configuration once (results discarded)
+    macro_rules! rc {
+        ($b:expr) => {{
+            let b = $b;
+            if how.reconf {
+                let _ = b.get_padding();
+                if let Ok(n) = b.calculate_size() {
+                    if n <= (1 << 20) {
+                        let mut scratch = vec![0x5au8; n + 4];
+                        let _ = b.write_into(&mut scratch[..]);
+                    }
+                }
+            }
+            b
+        }};
+    }
     // in the probing route the padding is set last, after a probe
     let pad_first = !how.probe;
     match cfg {
         Cfg::Sr { ssrc, ntp, rtp, pc, oc, blocks, padding } => {
             let mut b = SenderReport::builder(*ssrc);
+            if how.reconf {
+                b = rc!(b.padding(junk_pad(*padding)).ntp_timestamp(!*ntp).rtp_timestamp(!*rtp).packet_count(!*pc).octet_count(!*oc));
+            }
             if pad_first {
                 b = b.padding(*padding);
             }
             b = b.ntp_timestamp(*ntp).rtp_timestamp(*rtp).packet_count(*pc).octet_count(*oc);
-            for rb in blocks {
+            for (k, rb) in blocks.iter().enumerate() {
                 b = pr!(b.add_report_block(mk_rb(rb)));
+                if how.reconf && k == 0 {
+                    // sized and written with one block and the junk / final padding, then more blocks follow
+                    b = rc!(b.padding(junk_pad(*padding)));
+                    b = b.padding(*padding);
+                }
             }
             if !pad_first {
                 b = pr!(pr!(b).padding(*padding));
@@ -356,11 +449,18 @@ pub fn construct<'a, V: Visit<'a>>(
         }
         Cfg::Rr { ssrc, blocks, padding } => {
             let mut b = ReceiverReport::builder(*ssrc);
+            if how.reconf {
+                b = rc!(b.padding(junk_pad(*padding)));
+            }
             if pad_first {
                 b = b.padding(*padding);
             }
-            for rb in blocks {
+            for (k, rb) in blocks.iter().enumerate() {
                 b = pr!(b.add_report_block(mk_rb(rb)));
+                if how.reconf && k == 0 {
+                    b = rc!(b.padding(junk_pad(*padding)));
+                    b = b.padding(*padding);
+                }
             }
             if !pad_first {
                 b = pr!(pr!(b).padding(*padding));
@@ -369,11 +469,18 @@ pub fn construct<'a, V: Visit<'a>>(
         }
         Cfg::Sdes { chunks, padding } => {
             let mut b = Sdes::builder();
+            if how.reconf {
+                b = rc!(b.padding(junk_pad(*padding)));
+            }
             if pad_first {
                 b = b.padding(*padding);
             }
-            for c in chunks {
+            for (k, c) in chunks.iter().enumerate() {
                 b = pr!(b.add_chunk(mk_chunk(c, how.owned)));
+                if how.reconf && k == 0 {
+                    b = rc!(b.padding(junk_pad(*padding)));
+                    b = b.padding(*padding);
+                }
             }
             if !pad_first {
                 b = pr!(pr!(b).padding(*padding));
@@ -382,11 +489,22 @@ pub fn construct<'a, V: Visit<'a>>(
         }
         Cfg::Bye { sources, reason, padding } => {
             let mut b = Bye::builder();
+            if how.reconf {
+                b = rc!(b.padding(junk_pad(*padding)).reason("a preliminary reason, to be replaced"));
+                if reason.is_empty() {
+                    // the only way back to "no reason" is an explicitly empty one
+                    b = b.reason("");
+                }
+            }
             if pad_first {
                 b = b.padding(*padding);
             }
             for s in sources {
                 b = pr!(b.add_source(*s));
+            }
+            if how.reconf {
+                b = rc!(b.padding(junk_pad(*padding)));
+                b = b.padding(*padding);
             }
             if how.owned {
                 let mut b = if reason.is_empty() { b.reason_owned("") } else { b.reason_owned(reason.as_str()) };
@@ -405,7 +523,15 @@ pub fn construct<'a, V: Visit<'a>>(
             }
         }
         Cfg::App { ssrc, subtype, name, data, padding } => {
-            if pad_first {
+            if how.reconf {
+                static JUNK_DATA: [u8; 12] = [0x3c; 12];
+                let b = rc!(App::builder(*ssrc, name.as_str()).padding(junk_pad(*padding)).subtype(!*subtype & 0x1f).data(&JUNK_DATA[..]));
+                if pad_first {
+                    out!(b.padding(*padding).subtype(*subtype).data(data))
+                } else {
+                    out!(pr!(pr!(pr!(b).data(data)).subtype(*subtype)).padding(*padding))
+                }
+            } else if pad_first {
                 out!(App::builder(*ssrc, name.as_str()).padding(*padding).subtype(*subtype).data(data))
             } else {
                 out!(pr!(pr!(pr!(App::builder(*ssrc, name.as_str())).data(data)).subtype(*subtype)).padding(*padding))
@@ -415,6 +541,20 @@ pub fn construct<'a, V: Visit<'a>>(
             let idx = *next;
             *next += 1;
             match (kind, how.owned) {
+                (FbKind::Transport, false) if how.reconf => out!(pr!(pr!(rc!(TransportFeedback::builder(fcis[idx].as_dyn())
+                    .sender_ssrc(!*sender)
+                    .media_ssrc(!*media)
+                    .padding(junk_pad(*padding)))
+                .sender_ssrc(*sender)
+                .media_ssrc(*media))
+                .padding(*padding))),
+                (FbKind::Payload, false) if how.reconf => out!(pr!(pr!(rc!(PayloadFeedback::builder(fcis[idx].as_dyn())
+                    .padding(junk_pad(*padding))
+                    .media_ssrc(!*media)
+                    .sender_ssrc(!*sender))
+                .media_ssrc(*media)
+                .sender_ssrc(*sender))
+                .padding(*padding))),
                 (FbKind::Transport, false) => out!(pr!(pr!(TransportFeedback::builder(fcis[idx].as_dyn())
                     .sender_ssrc(*sender)
                     .media_ssrc(*media))
@@ -433,6 +573,7 @@ pub fn construct<'a, V: Visit<'a>>(
                         }
                         Fci::Fir(l) => TransportFeedback::builder_owned(mk_fir(l)),
                     };
+                    let b = if how.reconf { rc!(b.sender_ssrc(!*sender).media_ssrc(!*media).padding(junk_pad(*padding))) } else { b };
                     out!(pr!(pr!(b.sender_ssrc(*sender).media_ssrc(*media)).padding(*padding)))
                 }
                 (FbKind::Payload, true) => {
@@ -445,12 +586,20 @@ pub fn construct<'a, V: Visit<'a>>(
                         }
                         Fci::Fir(l) => PayloadFeedback::builder_owned(mk_fir(l)),
                     };
+                    let b = if how.reconf { rc!(b.padding(junk_pad(*padding)).media_ssrc(!*media).sender_ssrc(!*sender)) } else { b };
                     out!(pr!(pr!(b.sender_ssrc(*sender).media_ssrc(*media)).padding(*padding)))
                 }
             }
         }
         Cfg::Unknown { pt, count, data, padding } => {
-            if pad_first {
+            if how.reconf {
+                let b = rc!(Unknown::builder(*pt, data).padding(junk_pad(*padding)).count(!*count & 0x1f));
+                if pad_first {
+                    out!(b.padding(*padding).count(*count))
+                } else {
+                    out!(pr!(pr!(pr!(b).count(*count)).padding(*padding)))
+                }
+            } else if pad_first {
                 out!(Unknown::builder(*pt, data).padding(*padding).count(*count))
             } else {
                 out!(pr!(pr!(pr!(Unknown::builder(*pt, data)).count(*count)).padding(*padding)))
@@ -480,7 +629,7 @@ pub fn construct<'a, V: Visit<'a>>(
             for m in members {
                 // members keep all route flags (a compound itself is never wrapped, only its leaves are)
                 let h = how;
-                cb = pr!(construct(m, h, fcis, next, AddTo(cb)));
+                cb = rc!(pr!(construct(m, h, fcis, next, AddTo(cb))));
             }
             concrete_depth_add(-1);
             hook!(cb);
@@ -520,18 +669,21 @@ impl<'a> Visit<'a> for Discard {
 pub fn concrete_outcome(cfg: &Cfg, how: How, buf: Vec<u8>) -> Option<(WOut, WOut, Vec<u8>)> {
     let mut fcis = vec![];
     set_probing(how.probe);
+    set_reconf(how.reconf);
     let made = call(|| make_fcis(cfg, &mut fcis));
     if made.is_err() {
         set_probing(false);
+        set_reconf(false);
         return None;
     }
     let mut next = 0;
-    let h = How { owned: how.owned, wrap: how.wrap, probe: how.probe };
+    let h = how;
     CONCRETE_DEPTH.with(|c| c.set(0));
     CONCRETE_REQ.with(|c| *c.borrow_mut() = Some(buf));
     CONCRETE_RES.with(|c| *c.borrow_mut() = None);
     let r = call(|| construct(cfg, h, &fcis, &mut next, Discard));
     set_probing(false);
+    set_reconf(false);
     CONCRETE_DEPTH.with(|c| c.set(0));
     let leftover = take_concrete_request();
     let res = CONCRETE_RES.with(|c| c.borrow_mut().take());
@@ -556,19 +708,22 @@ pub fn concrete_outcome(cfg: &Cfg, how: How, buf: Vec<u8>) -> Option<(WOut, WOut
 pub fn with_writer<R>(cfg: &Cfg, how: How, f: impl FnOnce(&DynW) -> R) -> R {
     let mut fcis = vec![];
     set_probing(how.probe);
+    set_reconf(how.reconf);
     // (the FCI builders are made up front so that `builder(&fci)` can borrow them; their setter and
     // observer calls are calls into the crate as well)
     if let Err(p) = call(|| make_fcis(cfg, &mut fcis)) {
         set_probing(false);
+        set_reconf(false);
         return f(&DynW(&ConstructionPanicked(p)));
     }
     let mut next = 0;
     // (a compound itself is never wrapped; `wrap` reaches its members, see the Compound arm of `construct`)
-    let h = How { owned: how.owned, wrap: how.wrap, probe: how.probe };
+    let h = how;
     // the setter (and probe) calls are calls into the crate too: observed, so that a panic in one
     // is attributed to the crate and surfaces as a panicking writer
     let built = call(|| construct(cfg, h, &fcis, &mut next, BoxIt));
     set_probing(false);
+    set_reconf(false);
     let r = match built {
         Ok(w) => {
             let r = f(&DynW(&*w));
